@@ -9,10 +9,12 @@ Only property theorems and their non-vacuity examples live in this file.
 namespace ScVerif.C16
 
 /-- Full strength: for every pair of top-level arguments (nil, typed nil, message of any type) whose
-message trees are well-formed (`Range` visits each field / map key once), `cmp.Equal()` holds exactly when
+message trees are well-formed (`Range` visits each field / map key once; the unknown fields of every message,
+at any depth, are what the model of `protowire.ConsumeField` cuts out of some raw bytes), `cmp.Equal()` holds exactly when
 the two arguments are equal in the sense of proto.Equal's documentation (`PEqTop`: nil only equals nil, a
 typed nil only a typed nil of the same type; same type, same populated fields with equal values, lists
-element-wise, maps key-wise, same unknown bytes per field number, NaN = NaN, +0 = -0) EXCEPT that the
+element-wise, maps key-wise, for every field number the same unknown bytes — all occurrences, in order;
+nothing else: no length or raw-byte-identity clause —, NaN = NaN, +0 = -0) EXCEPT that the
 fields selected by `ignoredField` — `change_time` of a message named `Change` — take no part: neither their
 value nor whether they are set.  `PEqTop (fun _ _ => false)` is protobuf equality itself. -/
 theorem C16_equal_agrees (x y : Top) (hx : TopWF x) (hy : TopWF y) :
@@ -73,6 +75,15 @@ theorem C16_unknown_fields_wire (bx by_ : Bytes) (rx ry : Unk)
   subst this
   intro n; rfl
 
+/-- The record cutter is well behaved on every input: a record that `ConsumeField` accepts is at least one
+byte long and not longer than the input (so the Go loop `x[:n]; x = x[n:]` neither stalls nor slices out of
+range on parsable bytes), and the fuel of the model is immaterial (the Go loop has none). -/
+theorem C16_wire_cutter (b : Bytes) :
+    (∀ num n, consumeField b = some (num, n) → 1 ≤ n ∧ n ≤ b.length) ∧
+    (∀ fuel, b.length ≤ fuel → splitRecords fuel b = wireRecords b) :=
+  ⟨fun num n h => consumeField_bounds b num n h,
+   fun fuel h => splitRecords_fuel fuel b.length b h (Nat.le_refl _)⟩
+
 /-- Non-vacuity: `#1000: 1, #1001: 9, #1000: 2` parses into three records; against `#1000: 3, …` (a
 difference in a NON-last occurrence of a repeated number, same total length) the answer is false. -/
 example : wireRecords [0xc0, 0x3e, 1, 0xc8, 0x3e, 9, 0xc0, 0x3e, 2] =
@@ -88,7 +99,8 @@ example : eqUnknownRaw [0xc0, 0x3e, 1, 0xc8, 0x3e, 9, 0xc0, 0x3e, 2] [0xc0, 0x3e
 example : TopWF (some (.msg "pkg.T" true
     (.cons ⟨1, "a"⟩ (.one (.sc (.int 1)))
       (.cons ⟨2, "m"⟩ (.map (.cons (.str "6b") (.sc (.float .nan)) .nil)) .nil)) [(1000, [0xc0, 0x3e, 1])])) := by
-  simp [TopWF, Val.WF, Fields.WF, FVal.WF, Entries.WF, Fields.keys, Entries.keys]
+  simp only [TopWF, Val.WF, Fields.WF, FVal.WF, Entries.WF, Fields.keys, Entries.keys]
+  exact ⟨by decide, ⟨trivial, ⟨by decide, trivial, trivial⟩, trivial⟩, [0xc0, 0x3e, 1], by decide⟩
 
 /-- The exception at work: for any message type whose short name is `Change`, a message with
 `change_time` set and one without are equal for the spec-with-exception and NOT equal for protobuf equality. -/
@@ -96,7 +108,7 @@ example (ty : String) (hty : shortName ty = "Change") (ts : Val) :
     PEq ignoredField (.msg ty true (.cons ⟨2, "change_time"⟩ (.one ts) .nil) []) (.msg ty true .nil []) ∧
     ¬ PEq (fun _ _ => false) (.msg ty true (.cons ⟨2, "change_time"⟩ (.one ts) .nil) []) (.msg ty true .nil []) := by
   constructor
-  · refine PEq.msg rfl ?_ ?_ (Or.inl rfl)
+  · refine PEq.msg rfl ?_ ?_ (fun _ => rfl)
     · intro fd hfd
       by_cases h : (⟨2, "change_time"⟩ : FD) = fd
       · subst h; simp [ignoredField, hty] at hfd
